@@ -130,6 +130,26 @@ pub fn histories(tier: Tier) -> Vec<Hist> {
             ],
             deleted_nodes: vec![], deleted_refs: vec![], c11: false,
         },
+        Hist {
+            name: "reference-removed-while-source-row-updated-elsewhere",
+            peers: 3,
+            steps: vec![
+                Step::Clock(1), cp(0, 0, "a"), cq(0, 1, "q"), Step::Clock(2), Step::AddRef { peer: 0, p: 0, q: 1 }, Step::PullAll,
+                Step::Clock(5), Step::DelRef { peer: 0, p: 0, q: 1 }, Step::Pull { dst: 1, src: 0 },
+                Step::Clock(6), up(2, 0, "c"),
+            ],
+            deleted_nodes: vec![], deleted_refs: vec![(0, 1)], c11: true,
+        },
+        Hist {
+            name: "reference-removed-then-source-row-updated-same-day-elsewhere",
+            peers: 3,
+            steps: vec![
+                Step::Clock(1), cp(0, 0, "a"), cq(0, 1, "q"), Step::ClockMs(1, 500), Step::AddRef { peer: 0, p: 0, q: 1 }, Step::PullAll,
+                Step::Clock(2), Step::DelRef { peer: 1, p: 0, q: 1 }, Step::Pull { dst: 0, src: 1 },
+                Step::ClockMs(2, 9), up(2, 0, "c"),
+            ],
+            deleted_nodes: vec![], deleted_refs: vec![(0, 1)], c11: true,
+        },
         // day boundaries: the first and the last millisecond of a day belong to exactly one day for the summary,
         // the served rows and the deletion records alike
         Hist {
